@@ -43,6 +43,7 @@ MIN_REACH = {
     "harvests_with_chunks_named_at_the_call": {"quick": 5, "thorough": 100},
     "memory_persisted_after_unsynced_steps": {"quick": 6, "thorough": 100},
     "synced_harvests_right_after_unsynced_ones": {"quick": 6, "thorough": 100},
+    "failed_saves_while_memory_held_unsynced_data": {"quick": 2, "thorough": 40},
     "unsynced_steps_before_first_save": {"quick": 25, "thorough": 400},
 }
 TIME_BUDGET = {"quick": 400, "thorough": 3400}
@@ -160,7 +161,8 @@ def cases(ctx):
             else:
                 # ... or simply by the next harvest that syncs (sync on/off mixed freely): its load-before must not discard
                 # what the un-synced harvests put into memory
-                st_ = {"op": rng.choice(["combos", "cases", "add_ds"]), "policy": rng.choice([True, False]), "version": 0,
+                # (also one whose save fails at the first attempt: the refused call must not forget what memory still holds)
+                st_ = {"op": rng.choice(["combos", "cases", "add_ds", "save_fails", "save_fails"]), "policy": rng.choice([True, False]), "version": 0,
                        "new_session": False, "reuse_old": False, "after_nosync": True,
                        "a": rng.sample(A_VALS, rng.randint(1, 2)), "b": rng.sample(B_VALS, rng.randint(1, 2)), "c": [C_VALS[0]]}
                 st_["pts"] = rng.sample([(a, b) for a in A_VALS for b in B_VALS], rng.randint(1, 3))
@@ -414,7 +416,10 @@ def run_case(ctx, case):
                         ctx.violation(dict(case, at=list(hist)), bad_msg, dict(sig, oracle="save-error-propagates"))
                         nviol += 1
                     hist.append(desc + " [failed]")
-                    judge("save_fails(before retry)", synced=sync)
+                    if st.get("after_nosync"):
+                        ctx.count("failed_saves_while_memory_held_unsynced_data")
+                    # (while un-synced data is still pending the disk is legitimately behind memory)
+                    judge("save_fails(before retry)", synced=sync and not st.get("after_nosync"))
                     hist.pop()
                     apply_model(pts, ver, True)
                     h.harvest_combos(combos, overwrite=True, sync=sync, verbosity=0)
